@@ -8,7 +8,7 @@ use common::{json, CaseOut};
 use swimos_agent_protocol::MapMessage;
 use swimos_recon::parser::parse_recognize;
 
-use crate::agentdef::{MapEv, M1, M2, M3, S1, V1, V2};
+use crate::agentdef::{host_spelling, send_handle, send_is_queued, MapEv, M1, M2, M3, S1, V1, V2};
 use crate::remote::{Frame, FrameKind, ReaderEnd, Req, ReqKind};
 use crate::run::Obs;
 use crate::script::UNKNOWN_LANES;
@@ -1009,10 +1009,22 @@ pub fn check_agent_commands(obs: &Obs, targets: &[(Option<String>, String, Strin
         let recv: Vec<&crate::run::TargetFrame> = obs.target_frames.iter().filter(|f| f.node == *node && f.lane == *lane && f.ticket < q).collect();
         received_total += recv.len() as u64;
         let mut seen: HashSet<u64> = HashSet::new();
-        // order is checked per sending path: ad hoc sends and a registered commander are
+        // order is checked per sending path: ad hoc sends and every registered commander handle are
         // different channels into the runtime, only each of them is ordered
-        let mut last_adhoc: Option<usize> = None;
-        let mut last_reg: Option<usize> = None;
+        let mut last_on_path: HashMap<Option<u32>, usize> = HashMap::new();
+        // further `Commander` handles of this target, created from equivalent spellings of its address
+        let mut handles: HashSet<u32> = HashSet::new();
+        for (_, _, mode) in &sent {
+            if let Some(h) = send_handle(*mode) {
+                handles.insert(h);
+                if h > 0 {
+                    out.count(&format!("agent-commands-sent-through-a-further-handle/{}", host_spelling(host, h).1));
+                }
+            }
+        }
+        if handles.len() > 1 {
+            out.count("targets-sent-to-through-several-commander-handles");
+        }
         for f in &recv {
             let v = parse_u64(&f.body);
             let Some(v) = v else {
@@ -1031,11 +1043,11 @@ pub fn check_agent_commands(obs: &Obs, targets: &[(Option<String>, String, Strin
                         );
                         continue;
                     }
-                    let last = if sent[i].2 == 0 { &mut last_adhoc } else { &mut last_reg };
-                    if last.map_or(false, |l| i < l) {
+                    let last = last_on_path.entry(send_handle(sent[i].2)).or_insert(i);
+                    if i < *last {
                         out.violation("C14", "agent-command/reordered", "commands to one target were forwarded out of send order", json!({"value": v, "target": ti}));
                     }
-                    *last = Some(last.map_or(i, |l| l.max(i)));
+                    *last = (*last).max(i);
                 }
             }
         }
@@ -1045,10 +1057,16 @@ pub fn check_agent_commands(obs: &Obs, targets: &[(Option<String>, String, Strin
                     continue;
                 }
                 let later_exists = sent.iter().skip(i + 1).next().is_some();
-                if *mode == 2 {
-                    out.violation("C14", "agent-command/queued-command-lost", "a command sent with send_queued (never to be superseded) was not forwarded", json!({"value": v, "target": ti}));
+                // (commands through a further handle of the target, mode >= 3, get a facet of their own: the
+                // signatures of the traffic that existed before stay what they were)
+                let facet = match send_handle(*mode) {
+                    Some(h) if h > 0 => format!("/handle={}", host_spelling(host, h).1),
+                    _ => String::new(),
+                };
+                if send_is_queued(*mode) {
+                    out.violation("C14", format!("agent-command/queued-command-lost{facet}"), "a command sent with send_queued (never to be superseded) was not forwarded", json!({"value": v, "target": ti, "mode": mode, "handles_of_target": handles.len()}));
                 } else if !later_exists {
-                    out.violation("C14", "agent-command/last-command-lost", "an overwritable command was dropped although no later command to the same target superseded it", json!({"value": v, "target": ti, "mode": mode}));
+                    out.violation("C14", format!("agent-command/last-command-lost{facet}"), "an overwritable command was dropped although no later command to the same target superseded it", json!({"value": v, "target": ti, "mode": mode, "handles_of_target": handles.len()}));
                 } else {
                     superseded += 1;
                 }
